@@ -601,6 +601,18 @@ fn ref_fires(term: &Term, size: usize, iteration: u64, out: &mut Vec<String>) {
 
 const SPELLINGS: [&str; 4] = ["lower", "upper", "capitalised", "alternating"];
 
+/// the limit as the document the library's own `Deserialize` implementation of `TerminationModel` reads (the variant's
+/// configured name around its fields; a duration as seconds and nanoseconds)
+fn serde_document(term: &Term) -> Value {
+    match term {
+        Term::Unlimited => json!({"iterations": {"limit": u64::MAX / 4}}),
+        Term::Iterations(l) => json!({"iterations": {"limit": l}}),
+        Term::Size(l) => json!({"solution_size": {"limit": l}}),
+        Term::RuntimeMs { limit_ms, frequency } => json!({"query_runtime": {"limit": {"secs": limit_ms / 1000, "nanos": (limit_ms % 1000) * 1_000_000}, "frequency": frequency}}),
+        Term::Combined(v) => json!({"combined": {"models": v.iter().map(serde_document).collect::<Vec<_>>()}}),
+    }
+}
+
 fn spelling_terms() -> Vec<Term> {
     let mut singles = vec![];
     for l in [0u64, 1, 2, 5] {
@@ -631,19 +643,33 @@ fn spelling_terms() -> Vec<Term> {
 fn builder_spellings(st: &mut Stats, only: Option<&Value>) {
     use routee_compass::app::compass::config::termination_model_builder::TerminationModelBuilder;
     let start = std::time::Instant::now() - std::time::Duration::from_secs(60);
+    use routee_compass_core::model::termination::termination_model::TerminationModel;
     for term in spelling_terms() {
-        let Some(cfg) = term.config_json() else { continue };
-        for (how, name) in SPELLINGS.iter().enumerate() {
-            let section = respell(&cfg, how);
+        // five ways to a model: the configuration section in four spellings through the application's builder, and the
+        // document of the library's own Deserialize implementation
+        let mut routes: Vec<(String, Value, bool)> = vec![];
+        if let Some(cfg) = term.config_json() {
+            for (how, name) in SPELLINGS.iter().enumerate() {
+                routes.push((format!("termination_builder.{}", name), respell(&cfg, how), false));
+            }
+        }
+        routes.push(("termination_model.deserialize".to_string(), serde_document(&term), true));
+        for (comp, section, by_serde) in routes {
             if let Some(o) = only {
                 if o.get("section") != Some(&section) {
                     continue;
                 }
             }
             st.evaluations += 1;
-            let comp = format!("termination_builder.{}", name);
             let case = || json!({"kind": "termination_builder", "section": section, "limit": term});
-            let built = match std::panic::catch_unwind(|| TerminationModelBuilder::build(&section, None)) {
+            let attempt: Result<Result<TerminationModel, String>, _> = std::panic::catch_unwind(|| {
+                if by_serde {
+                    serde_json::from_value::<TerminationModel>(section.clone()).map_err(|e| e.to_string())
+                } else {
+                    TerminationModelBuilder::build(&section, None).map_err(|e| e.to_string())
+                }
+            });
+            let built = match attempt {
                 Ok(Ok(t)) => t,
                 Ok(Err(e)) => {
                     st.violation(&comp, "every_spelling_of_a_limit_kind_is_accepted", 0, || format!("{} is rejected: {}", section, e), case);
